@@ -1215,7 +1215,9 @@ class CircuitDAG(CircuitBase):
             op = copy.copy(op)
             is_controlled = False
             if isinstance(op, ops.OneQubitGateWrapper):
-                op_type_seq = [type(gate) for gate in op.unwrap()]
+                # unwrap() lists the gates in the order they act (last listed first), the wrapper's noise list
+                # follows the listed order
+                op_type_seq = [type(gate) for gate in op.unwrap()][::-1]
                 noise_list = self._find_wrapped_noise(
                     op_type_seq, noise_model_map[op.reg_type]
                 )
